@@ -590,7 +590,11 @@ int sbdf_tm_write(FILE* out, sbdf_tablemetadata const* in)
 		}
 	}
 
-	qsort((void*)array, array_size, sizeof(struct metadata_sort), compare_metadata_sort_by_name);
+	if (array)
+	{
+		/* no column metadata at all: nothing to sort (qsort must not be given a null base) */
+		qsort((void*)array, array_size, sizeof(struct metadata_sort), compare_metadata_sort_by_name);
+	}
 
 	/* fold duplicate values */
 	{
@@ -629,7 +633,10 @@ int sbdf_tm_write(FILE* out, sbdf_tablemetadata const* in)
 	}
 
 	/* restore original sorting order */
-	qsort((void*)array, array_size, sizeof(struct metadata_sort), compare_metadata_sort_by_order);
+	if (array)
+	{
+		qsort((void*)array, array_size, sizeof(struct metadata_sort), compare_metadata_sort_by_order);
+	}
 
 	if (error = sbdf_write_int32(out, count))
 	{
